@@ -43,6 +43,9 @@ class planned:
             return None
         if outcome == "false":
             return NotCompleted("FALSE", self, f"planned false for {stem} in {self.tag}", source=seqs)
+        if outcome == "relabel":
+            # a failure whose NotCompleted names something other than the input
+            return NotCompleted("FALSE", self, f"planned relabel for {stem} in {self.tag}", source=f"label-of-{stem}")
         if outcome == "wrong":
             return {"wrong": "type", "stem": stem}
         tag = self.tag
